@@ -306,6 +306,13 @@ func vRunReplay(c *vCase) {
 			return
 		}
 	}
+	if c.Idx < 8 {
+		var topics []string
+		for _, m := range replay {
+			topics = append(topics, m.tag)
+		}
+		c.Describe("replay contained %d topics %v after %d live messages", len(replay), topics, len(live))
+	}
 	c.Cov("replays", 1)
 	c.Cov("max:topics_in_replay", len(seen))
 	c.Nontrivial()
